@@ -26,7 +26,7 @@ func main() {
 	for len(run.Cases) < run.N {
 		if r.Chance(1, 8) {
 			meshgen.Law(run, r)
-		} else if r.Chance(1, 20) {
+		} else if r.Chance(1, 12) {
 			meshgen.Persist(run, r, kinds) // retained results re-read after later operations on the same values
 		} else {
 			meshgen.Chain(run, r, kinds, 4)
